@@ -57,6 +57,9 @@ var (
 	ErrInvalidReference = errors.New("invalid reference, should be a tag or a branch")
 	// ErrRepositoryNotExists is returned when the repository does not exist.
 	ErrRepositoryNotExists = errors.New("repository does not exist")
+	// ErrGitDirIsSymlink is returned when the .git pointer file of a worktree
+	// would have to be written through a symlink.
+	ErrGitDirIsSymlink = errors.New(".git is a symlink")
 	// ErrRepositoryIncomplete is returned when the repository's commondir path does not exist.
 	ErrRepositoryIncomplete = errors.New("repository's commondir path does not exist")
 	// ErrRemoteNotFound is returned when the remote is not found.
@@ -236,6 +239,14 @@ func createDotGitFile(worktree, storage billy.Filesystem) error {
 	if path == GitDirName {
 		// not needed, since the folder is the default place
 		return nil
+	}
+
+	// Create follows a symlink in the final component: a link planted at
+	// <worktree>/.git (e.g. in the directory a submodule is about to be
+	// checked out into) would have the pointer file written over whatever
+	// the link names, inside the parent's .git or outside the worktree.
+	if fi, err := worktree.Lstat(GitDirName); err == nil && fi.Mode()&os.ModeSymlink != 0 {
+		return fmt.Errorf("cannot create %s file: %w", GitDirName, ErrGitDirIsSymlink)
 	}
 
 	f, err := worktree.Create(GitDirName)
